@@ -32,11 +32,13 @@ CONFIGS = [
     ("spea2", "spea2", {}, "SPEA2"),
     ("nsga3", "nsga3", {"nd": "log"}, "NSGA-III with memory"),
     ("nsga3_std", "nsga3", {"nd": "standard"}, "NSGA-III with memory"),
+    ("nsga3_comma", "nsga3", {"nd": "log", "comma": True}, "NSGA-III with memory (selection among offspring only)"),
     ("gp", "gp", {}, "GP with ephemerals"),
     ("gp_typed_builtin", "gp_typed", {"variant": "builtin"}, "GP with ephemerals (typed, builtin types)"),
     ("gp_typed_heap", "gp_typed", {"variant": "heap"}, "GP with ephemerals (typed, user classes as types)"),
     ("cma", "cma", {}, "CMA-ES"),
     ("cma1pl", "cma1pl", {}, "(1+lambda)-CMA"),
+    ("cma_active", "cma_active", {}, "(1+lambda)-CMA (active, mixed-integer, constrained)"),
     ("mocma", "mocma", {"lambda_": 6}, "MO-CMA-ES"),
     ("mocma_l3", "mocma", {"lambda_": 3}, "MO-CMA-ES (lambda != mu)"),
     ("es", "es", {}, "GA on lists (evolution strategy, array individuals with a strategy attribute)"),
@@ -148,7 +150,7 @@ def runtime_part(run, jobs):
     rng = run.rng
     thorough = run.thorough
     ngen = run.scale(5, 7)
-    nseeds = run.scale(2, 5)
+    nseeds = run.scale(2, 3)
     protocols = [0, 1, 2, 3, 4, 5] if thorough else [2, 5]
     pool_workers = list(range(1, 9)) if thorough else None
     only = os.environ.get("C17_ONLY")
@@ -159,11 +161,11 @@ def runtime_part(run, jobs):
     import c17_families_ops as ops
     configs = list(configs)
     if not only or "ga_ops" in only.split(","):
-        for j in range(run.scale(3, 24)):
+        for j in range(run.scale(3, 12)):
             prm = ops.draw(rng)
             configs.append(("ga_ops", "ga_ops", prm, "GA on lists (operator sweep %s)" % "/".join(str(prm[k]) for k in sorted(prm))))
     plan = []
-    primary = {"ga", "nsga2", "spea2", "nsga3", "gp", "cma", "cma1pl", "mocma"}
+    primary = {"ga", "nsga2", "spea2", "nsga3", "nsga3_comma", "gp", "cma", "cma1pl", "mocma"}
     for (cfg, fam, params, label) in configs:
         for si in range(nseeds if (thorough or cfg in primary) else 1):
             seed = rng.randrange(1, 2 ** 31)
